@@ -159,7 +159,16 @@ fn pick_amount(wd: &World, rng: &mut Rng, from: usize, first_chan: usize) -> u64
 		Some(d) => (d.next_outbound_htlc_minimum_msat, d.next_outbound_htlc_limit_msat),
 		None => (1, 1_000_000),
 	};
-	let dust_edges = [354_000u64, 353_999, 546_000, 1_000_000, 999_999, 330_000];
+	// BOLT-3 trimming thresholds: dust_limit (354 sat) + HTLC-timeout (663 wu) / HTLC-success
+	// (703 wu) fee at the feerates the profile uses; zero-fee-HTLC channels trim at 354 sat flat
+	let mut dust_edges = vec![354_000u64, 353_999, 546_000, 1_000_000, 999_999, 330_000];
+	for f in [253u64, 254, 300, 500, 1000, 2000, 3000, 5000] {
+		for w in [663u64, 703] {
+			let t = (354 + f * w / 1000) * 1000;
+			dust_edges.push(t);
+			dust_edges.push(t - 1);
+		}
+	}
 	let v = match rng.below(16) {
 		0 => max,
 		1 => max + 1,
@@ -168,8 +177,7 @@ fn pick_amount(wd: &World, rng: &mut Rng, from: usize, first_chan: usize) -> u64
 		4 => min.saturating_sub(1).max(1),
 		5 => min + 1,
 		6 => 1,
-		7 | 8 => *rng.pick(&dust_edges) + rng.below(3) * 1000,
-		9 => max / 2 + 1,
+		7 | 8 | 9 => *rng.pick(&dust_edges) + rng.below(3) * 1000,
 		10 => rng.range(1, 2_000_000),
 		_ => {
 			let hi = max.max(min + 1).min(60_000_000);
